@@ -90,9 +90,9 @@ impl Prop for C10 {
         "C10"
     }
     fn rule(&self) -> String {
-        "Generated: (dividend, divisor) with the divisor a Decimal or an integer of any of the 9 types on either side; class-based operands plus derived pairs: dividends that cannot be re-expressed with the divisor's scale within i128 (stepwise path) incl. divisors above 2^127/10, \
+        "Generated: (dividend, divisor) with the divisor a Decimal or an integer of any of the 9 types on either side; class-based operands, related pairs, machine-word boundary and unit-like operands plus derived pairs: dividends that cannot be re-expressed with the divisor's scale within i128 (stepwise path) incl. divisors above 2^127/10, \
          divisors whose alignment overflows, exact multiples / near multiples (x = k*y + e), |x| < |y|, divisor one / zero dividend / zero divisor in all representations. \
-         Each case runs %, %= and checked_rem in all operand forms. Oracle: r = X - trunc(X/Y)*Y on the aligned big integers, re-verified as a validity predicate (x = y*t + r, t integer, |r| < |y|, sign of x). \
+         Each case runs %, %= and checked_rem in all operand forms; follow-up cases repeat an operand of the previous case on the same thread. Oracle: r = X - trunc(X/Y)*Y on the aligned big integers, re-verified as a validity predicate (x = y*t + r, t integer, |r| < |y|, sign of x). \
          Non-trivial: scales differ or stepwise path. Distinct: hash of (x, y)."
             .into()
     }
